@@ -1005,7 +1005,7 @@ fn cmd_run(cfg: &Cfg) -> i32 {
     if cfg.rustc_tier {
         match rustc_tier_out.into_inner().unwrap().unwrap_or_else(|| Err("the end-to-end tier did not run".to_string())) {
             Ok(r) => {
-                if let Some(v) = &r.violation {
+                for v in r.violation.iter().chain(r.more.iter()) {
                     println!("violation (rustc tier): {}", v.0);
                     println!("VIOLATION property=C19 replay={}", v.1.display());
                     exit = 1;
